@@ -17,7 +17,19 @@ type StructV struct {
 	T types.Type
 	F []Value
 }
-type ArrayV struct{ E []Value }
+type ArrayV struct {
+	E []Value
+	// Chunk: the result of copy(array[off:off+region], symbolicString) — the first N bytes of the region are the
+	// bytes of the term (N symbolic when the string fits, the region length when it was truncated); the elements
+	// of the region themselves are unconstrained stand-ins, meaningful only through bytesTerm / a reslice up to N
+	Chunk *arrChunk
+}
+
+type arrChunk struct {
+	Off, Region int
+	Bytes       *Term // Bytes sort
+	N           *Term // number of bytes copied (Int or BV64 constant)
+}
 
 type Obj struct {
 	V    Value
@@ -103,7 +115,7 @@ func deepCopy(v Value) Value {
 		}
 		return n
 	case *ArrayV:
-		n := &ArrayV{E: make([]Value, len(x.E))}
+		n := &ArrayV{E: make([]Value, len(x.E)), Chunk: x.Chunk}
 		for i, f := range x.E {
 			n.E[i] = deepCopy(f)
 		}
